@@ -1,11 +1,11 @@
 ID = 'C12'
 TITLE = 'FIMO reports exactly the windows above threshold, both strands, fields correct'
 CONTRACT_MODULES = ['contracts.fimo_c']
-FUNCTIONS = ['tangermeme.tools.fimo._fast_hits']
+FUNCTIONS = ['tangermeme.tools.fimo._fast_hits', 'tangermeme.tools.fimo.fimo#threshold']
 BOUNDED = 'bounded.C12'
 BOUNDED_BUDGET = {'quick': 60, 'thorough': 600}
 LEVEL = 'other'
-EXPLANATION = ("deductive (scanner kernel _fast_hits): membership of hits[k] = exactly the windows 0..len-w inclusive whose score exceeds "
+EXPLANATION = ("deductive: threshold of one motif (fragment: body of the threshold loop of fimo()): the score threshold is the first bin of the table whose log p-value is below log2(threshold), +inf when none, only entry i written; (scanner kernel _fast_hits): membership of hits[k] = exactly the windows 0..len-w inclusive whose score exceeds "
                "the threshold, hit fields, score as recursive sum (unknown characters contribute 0), index safety of every array access "
                "in the numba kernel, prange frame (iteration k appends to hits[k] only). bounded: thresholds/bins, pandas assembly, "
                "strands, FASTA vs tensor, dim=0/1, reverse-complement mirror image, thread counts, against a pure-Python reference scanner")
